@@ -385,6 +385,29 @@ func (p *Path) equalVals(t types.Type, a, b Value) *Term {
 		// only comparison with nil is legal
 		return c.Bool(x == nil && isNilPtr(b))
 	case *Blob:
+		if y, ok := b.(*Blob); ok && x != nil && y != nil && !x.Nil && !y.Nil {
+			if x == y {
+				return c.T
+			}
+			px, ok1 := x.Data.(*jsonPayload)
+			py, ok2 := y.Data.(*jsonPayload)
+			if ok1 && ok2 {
+				if !types.Identical(px.T, py.T) {
+					return c.F
+				}
+				return p.equalVals(px.T, px.V, py.V)
+			}
+			panic(unsupported{"comparison of opaque blobs"})
+		}
+		if s, ok := b.(string); ok && x != nil && !x.Nil {
+			if s == "" {
+				return c.Eq(x.Len, c.BV(0, 64))
+			}
+			if _, isJSON := x.Data.(*jsonPayload); isJSON {
+				return c.F // a JSON document of a struct is never equal to a plain harness string
+			}
+			panic(unsupported{"comparison of an opaque blob with a string"})
+		}
 		return c.Bool(isNilPtr(x) == isNilPtr(b))
 	}
 	// reference kinds: identity
